@@ -2322,12 +2322,17 @@ func (s *scanner) generateResultForGlobResolve(
 			panic("Internal error")
 		}
 
+		// Only generate an arrow function if the target supports them
+		body := js_ast.FnBody{Block: js_ast.SBlock{Stmts: []js_ast.Stmt{{Data: &js_ast.SReturn{ValueOrNil: value}}}}}
+		var closure js_ast.Expr
+		if s.options.UnsupportedJSFeatures.Has(compat.Arrow) {
+			closure.Data = &js_ast.EFunction{Fn: js_ast.Fn{Body: body}}
+		} else {
+			closure.Data = &js_ast.EArrow{Body: body, PreferExpr: true}
+		}
 		object.Properties = append(object.Properties, js_ast.Property{
-			Key: js_ast.Expr{Data: &js_ast.EString{Value: helpers.StringToUTF16(key)}},
-			ValueOrNil: js_ast.Expr{Data: &js_ast.EArrow{
-				Body:       js_ast.FnBody{Block: js_ast.SBlock{Stmts: []js_ast.Stmt{{Data: &js_ast.SReturn{ValueOrNil: value}}}}},
-				PreferExpr: true,
-			}},
+			Key:        js_ast.Expr{Data: &js_ast.EString{Value: helpers.StringToUTF16(key)}},
+			ValueOrNil: closure,
 		})
 	}
 
